@@ -241,6 +241,14 @@ theorem idxOf_append_left {a b : List Nat} {x : Nat} (hx : x ∈ a) : (a ++ b).i
       · exact absurd h.symm e
       · rw [List.cons_append, idxOf_cons_ne' _ _ e, idxOf_cons_ne' _ _ e, ih h]
 
+/-- the leaves of a merge are the leaves of its two children, when these were created before -/
+theorem leaves_node {n : Nat} {D : Dendro α} {t : Nat} {r : Row α} (hi : r.i < n + t) (hj : r.j < n + t)
+    (h : D[t]? = some r) : leaves n D (n + t) = leaves n D r.i ++ leaves n D r.j := by
+  obtain ⟨hD, hl⟩ := split_at h
+  have := leaves_row n (D.take t) r (D.drop (t + 1)) (by rw [hl]; exact hi) (by rw [hl]; exact hj)
+  rw [← hD, hl] at this
+  exact this
+
 /-- in a valid dendrogram the size of a node (1 for a leaf, the size column for a merge) is its number of leaves -/
 theorem szW_eq_leaves {n : Nat} {D : Dendro α} (hv : ValidDendro n D = true) {x : Nat} (hx : x < n + D.length) :
     szW (List.replicate n 1) D x = (leaves n D x).length := by
@@ -264,7 +272,9 @@ theorem aggregate_ge2 {D : Dendro α} {n k : Nat} (hv : ValidDendro n D = true) 
     ∃ out w, aggregateDendrogram D k cnt = .ok out ∧ w.length = k ∧ w.sum = n ∧
       ValidDendroW w out.dendro = true ∧
       out.dendro.map (·.h) = (D.drop (n - k)).map (·.h) ∧ (cnt = true → out.counts = some w) ∧
-      w = (liveNodes n D (n - k)).map (fun x => (leaves n D x).length) := by
+      w = (liveNodes n D (n - k)).map (fun x => (leaves n D x).length) ∧
+      (∀ u, u < k - 1 → ∀ v, v < n → (v ∈ leaves n D (n + (n - k) + u) ↔
+        ∃ c ∈ leaves k out.dendro (k + u), v ∈ leaves n D ((liveNodes n D (n - k)).getD c 0))) := by
   have hlen := valid_length hv
   have hs := static_of_valid (w := List.replicate n 1) hv
   have hn1 : (List.replicate n 1).length = n := by simp
@@ -460,7 +470,95 @@ theorem aggregate_ge2 {D : Dendro α} {n k : Nat} (hv : ValidDendro n D = true) 
       split at hg
       · exact (Option.some.inj hg).symm
       · cases hg
-  refine ⟨{ dendro := newD, counts := if cnt then some w else none }, w, ?_, hwlen, ?_, ?_, ?_, ?_, ?_⟩
+  have hnewValid : ValidDendroW w newD = true := by
+    unfold ValidDendroW
+    simp only [Bool.and_eq_true, beq_iff_eq]
+    refine ⟨by simp [newD, hdl, hwlen]; omega, ?_⟩
+    rw [validLoop_eq_isSome, hwlen]
+    show (liveAfter k 0 newD (liveInit w)).isSome = true
+    rw [hsim]; rfl
+  have hnewStatic := static_of_valid hnewValid
+  have hc := (live_char (List.replicate n 1) D (n - k) Lm hm (by rw [hn1]; exact hLm)).2
+  have hext : ext = liveNodes n D (n - k) := by
+    apply sorted_ext _ _ hLmAsc
+    · unfold liveNodes
+      exact (List.pairwise_lt_range).filter _
+    · intro x
+      unfold liveNodes
+      have hused : ((D.take (n - k)).flatMap fun r => [r.i, r.j]) = childList (D.take (n - k)) := rfl
+      simp only [List.mem_filter, List.mem_range, hused]
+      have hx := hc x
+      rw [hn1] at hx
+      constructor
+      · intro hm'
+        have hsome : ∃ v, Lm.get? x = some v := by
+          cases hg : Lm.get? x with
+          | none => exact absurd hm' ((Dict.get?_eq_none_iff _ _).mp hg)
+          | some v => exact ⟨v, rfl⟩
+        obtain ⟨v, hv'⟩ := hsome
+        rw [hx] at hv'
+        split at hv'
+        · rename_i hcond
+          refine ⟨hcond.1, ?_⟩
+          simpa using hcond.2
+        · cases hv'
+      · rintro ⟨h1, h2⟩
+        have hnot : x ∉ childList (D.take (n - k)) := by simpa using h2
+        rw [if_pos ⟨h1, hnot⟩] at hx
+        exact Dict.get?_some_key_mem hx
+  -- rows of the aggregated dendrogram have the leaves of the last merges
+  have htie : ∀ u, u < k - 1 → ∀ v, v < n → (v ∈ leaves n D (n + (n - k) + u) ↔
+      ∃ c ∈ leaves k newD (k + u), v ∈ leaves n D (ext.getD c 0)) := by
+    intro u
+    induction u using Nat.strongRecOn with
+    | _ u ih =>
+      intro hu v hv'
+      have hlt : n - k + u < D.length := by omega
+      have hrow : D[n - k + u]? = some D[n - k + u] := List.getElem?_eq_getElem hlt
+      generalize hr : D[n - k + u] = r at hrow
+      have hrowS : (D.drop (n - k))[u]? = some r := by rw [List.getElem?_drop]; exact hrow
+      have hnewRow : newD[u]? = some { r with i := φ r.i, j := φ r.j } := by
+        simp only [newD, List.getElem?_map, hrowS, Option.map_some]
+      obtain ⟨hbi, hbj, _⟩ := hs.bound (n - k + u) r hrow
+      rw [hn1] at hbi hbj
+      have hL : leaves n D (n + (n - k + u)) = leaves n D r.i ++ leaves n D r.j := leaves_node hbi hbj hrow
+      have hnb := hnewStatic.bound u _ hnewRow
+      rw [hwlen] at hnb
+      have hR : leaves k newD (k + u) = leaves k newD (φ r.i) ++ leaves k newD (φ r.j) :=
+        leaves_node hnb.1 hnb.2.1 hnewRow
+      have hchild : ∀ x, (x = r.i ∨ x = r.j) → x < n + (n - k + u) →
+          (v ∈ leaves n D x ↔ ∃ c ∈ leaves k newD (φ x), v ∈ leaves n D (ext.getD c 0)) := by
+        intro x hx hxb
+        have hxc : x ∈ childList (D.drop (n - k)) := by
+          simp only [childList, List.mem_flatMap]
+          exact ⟨r, List.mem_of_getElem? hrowS, by rcases hx with e | e <;> simp [e]⟩
+        rcases g5 x hxc with h1 | ⟨h1, h2⟩
+        · obtain ⟨c0, hc0l, hc0⟩ := List.getElem_of_mem h1
+          have hφ := hφext c0 x (by rw [List.getElem?_eq_getElem hc0l, hc0])
+          rw [hφ, leaves_leaf k newD (by rw [← hextlen]; exact hc0l)]
+          have : ext.getD c0 0 = x := by
+            rw [List.getD_eq_getElem?_getD, List.getElem?_eq_getElem hc0l, hc0]; rfl
+          simp only [List.mem_cons, List.not_mem_nil, or_false, exists_eq_left, this]
+        · have hu' : x - (n + (n - k)) < u := by omega
+          have hφ := hφint (x - (n + (n - k))) (by omega)
+          have ex : n + (n - k) + (x - (n + (n - k))) = x := by omega
+          rw [ex] at hφ
+          rw [hφ]
+          have := ih (x - (n + (n - k))) hu' (by omega) v hv'
+          rw [ex] at this
+          simpa using this
+      have e1 : n + (n - k) + u = n + (n - k + u) := by omega
+      rw [e1, hL, hR]
+      simp only [List.mem_append]
+      rw [hchild r.i (Or.inl rfl) hbi, hchild r.j (Or.inr rfl) hbj]
+      constructor
+      · rintro (⟨c, hc', h⟩ | ⟨c, hc', h⟩)
+        · exact ⟨c, Or.inl hc', h⟩
+        · exact ⟨c, Or.inr hc', h⟩
+      · rintro ⟨c, hc' | hc', h⟩
+        · exact Or.inl ⟨c, hc', h⟩
+        · exact Or.inr ⟨c, hc', h⟩
+  refine ⟨{ dendro := newD, counts := if cnt then some w else none }, w, ?_, hwlen, ?_, hnewValid, ?_, ?_, ?_, ?_⟩
   · unfold aggregateDendrogram
     have e1 : ¬ (k > D.length + 1) := by omega
     have e2 : ¬ (k < 1) := by omega
@@ -489,48 +587,14 @@ theorem aggregate_ge2 {D : Dendro α} {n k : Nat} (hv : ValidDendro n D = true) 
         simp [h1, List.getD_eq_getElem?_getD]
     simp only [sumVals, liveInit, List.map_map, Function.comp_def, List.length_replicate]
     rw [hrep]; simp
-  · unfold ValidDendroW
-    simp only [Bool.and_eq_true, beq_iff_eq]
-    refine ⟨by simp [newD, hdl, hwlen]; omega, ?_⟩
-    rw [validLoop_eq_isSome, hwlen]
-    show (liveAfter k 0 newD (liveInit w)).isSome = true
-    rw [hsim]; rfl
   · simp [newD, Function.comp_def]
   · intro hc; simp [hc]
   · -- the weights are the leaf counts of the clusters alive after the first n - k merges
-    have hc := (live_char (List.replicate n 1) D (n - k) Lm hm (by rw [hn1]; exact hLm)).2
-    have hext : ext = liveNodes n D (n - k) := by
-      apply sorted_ext _ _ hLmAsc
-      · unfold liveNodes
-        exact (List.pairwise_lt_range).filter _
-      · intro x
-        unfold liveNodes
-        have hused : ((D.take (n - k)).flatMap fun r => [r.i, r.j]) = childList (D.take (n - k)) := rfl
-        simp only [List.mem_filter, List.mem_range, hused]
-        have hx := hc x
-        rw [hn1] at hx
-        constructor
-        · intro hm'
-          have hsome : ∃ v, Lm.get? x = some v := by
-            cases hg : Lm.get? x with
-            | none => exact absurd hm' ((Dict.get?_eq_none_iff _ _).mp hg)
-            | some v => exact ⟨v, rfl⟩
-          obtain ⟨v, hv'⟩ := hsome
-          rw [hx] at hv'
-          split at hv'
-          · rename_i hcond
-            refine ⟨hcond.1, ?_⟩
-            simpa using hcond.2
-          · cases hv'
-        · rintro ⟨h1, h2⟩
-          have hnot : x ∉ childList (D.take (n - k)) := by simpa using h2
-          rw [if_pos ⟨h1, hnot⟩] at hx
-          exact Dict.get?_some_key_mem hx
     rw [hwsz, ← hext]
     apply List.map_congr_left
     intro x hx
     exact szW_eq_leaves hv (by have := hextB x hx; omega)
-
+  · rw [← hext]; exact htie
 
 /-- the clusters alive after the first `m` merges of a valid dendrogram: their number, their sizes -/
 theorem liveNodes_weights {D : Dendro α} {n m : Nat} (hv : ValidDendro n D = true) (hm : m ≤ D.length) :
